@@ -5,6 +5,10 @@
 //!                 kept in the tree node but never passed to the action; one action call; one new
 //!                 node pushed; nothing below is touched.
 use super::*;
+
+#[path = "/verif/kani/parol_runtime/playback_gen_lr.rs"]
+mod playback_gen;
+
 use crate::verif_kani::support::stub_format;
 use crate::verif_kani::tables;
 use crate::{Location, Token};
@@ -114,7 +118,7 @@ macro_rules! lr_steps {
         #[kani::proof]
         #[kani::unwind(10)]
         #[kani::stub(std::fmt::format, stub_format)]
-        fn $name() { call_action_body(tables::$m::START, &tables::$m::PARSE_TABLE, tables::$m::PRODUCTIONS, tables::$m::TERMINAL_NAMES, tables::$m::NON_TERMINALS, $kind, $pi); }
+        pub(crate) fn $name() { call_action_body(tables::$m::START, &tables::$m::PARSE_TABLE, tables::$m::PRODUCTIONS, tables::$m::TERMINAL_NAMES, tables::$m::NON_TERMINALS, $kind, $pi); }
     )* };
 }
 
@@ -131,7 +135,7 @@ lr_steps! {
 #[kani::proof]
 #[kani::unwind(10)]
 #[kani::stub(std::fmt::format, stub_format)]
-fn lr_steps_twin_must_fail() {
+pub(crate) fn lr_steps_twin_must_fail() {
     let fname = Arc::new(PathBuf::new());
     let mut p = LRParser::new(tables::lr_expr::START, &tables::lr_expr::PARSE_TABLE, tables::lr_expr::PRODUCTIONS, tables::lr_expr::TERMINAL_NAMES, tables::lr_expr::NON_TERMINALS);
     p.parse_tree_stack.push(LRParseTree::Terminal(token(&fname, 5, 0, false)));
